@@ -13,6 +13,7 @@ import universe as U
 CLASSES = {c.__name__: c for c in U.CLASS_CODES if isinstance(c, type)}
 CLASSES["NoneType"] = type(None)
 CLASSES["AbstractSet"] = collections.abc.Set
+CLASSES["Set"] = collections.abc.Set
 
 
 # ---------------------------------------------------------------------------
@@ -31,6 +32,12 @@ def build_obj(s, cache):
         return s[1].encode("latin1")
     if k == "ie":
         return U.IE[s[1]]
+    if k == "isub":
+        return U.ISub(s[1])
+    if k == "fsub":
+        return U.FSub(s[1])
+    if k == "fe":
+        return U.FE[s[1]]
     if k == "e":
         return U.E[s[1]]
     if k == "inst":
@@ -56,7 +63,7 @@ def gen_scalar(rng):
     return rng.choice(
         [["none"], ["bool", True], ["bool", False], ["int", 0], ["int", 1], ["int", -1], ["int", 2], ["int", 300],
          ["float", 0.0], ["float", 1.0], ["float", 1.5], ["complex", 0.0, 1.0], ["complex", 1.0, 0.0], ["str", ""],
-         ["str", "a"], ["str", "ab"], ["bytes", ""], ["bytes", "a"], ["ie", "x"], ["ie", "y"], ["e", "a"], ["e", "b"],
+         ["str", "a"], ["str", "ab"], ["bytes", ""], ["bytes", "a"], ["ie", "x"], ["ie", "y"], ["e", "a"], ["e", "b"], ["isub", 3], ["fsub", 0.5], ["fsub", 1.0], ["fe", "half"], ["fe", "one"],
          ["inst", "A", 0], ["inst", "A", 1], ["inst", "B", 0], ["inst", "C", 0], ["class", "int"], ["class", "A"],
          ["class", "B"], ["class", "str"]]
     )
@@ -162,6 +169,15 @@ def build(s, cache):
         for name, x in (s[3] if len(s) > 3 else []):  # keyword-only parameters, in declaration order
             params.append(SigParameter(name, ParameterKind.KEYWORD_ONLY, annotation=build(x, cache)))
         return V.CallableValue(Signature.make(params, build(s[2], cache)))
+    if k == "alias":
+        # ["alias", ident, [argument specs]]; the alias table of the case is cache["__aliases__"]:
+        # {ident: [name, aliased value spec, [type parameter indices]]}.  One TypeAlias object per ident
+        # (pyanalyze identifies aliases by that object); different idents may share a name.
+        name, inner, params = cache["__aliases__"][str(s[1])]
+        key = ("alias", s[1])
+        if key not in cache:
+            cache[key] = V.TypeAlias(lambda inner=inner: build(inner, cache), lambda params=params: [U.TYPEVARS[i] for i in params])
+        return V.TypeAliasValue(name, "aliasmod", cache[key], tuple(build(x, cache) for x in s[2]))
     if k == "union":
         u = V.MultiValuedValue([build(x, cache) for x in s[1]])
         # Never is always the singleton (see the note in gen_val)
@@ -333,7 +349,26 @@ def gen_permutable(rng):
     return ["unite", [core, gen_val(rng, 1)]]
 
 
+def gen_hidden_tv(rng):
+    """a callable whose only type variable sits where Value.walk_values does not look although
+    substitute_typevars does (the extra-items type of a closed TypedDict), in parameter or return position"""
+    tv = ["tv", rng.randrange(3), None, []]
+    td = ["td", [[rng.choice(["a", "b"]), ["typed", rng.choice(["str", "int"])], True, False]], tv if rng.random() < 0.7 else ["generic", "list", [tv]], rng.random() < 0.3]
+    if rng.random() < 0.5:
+        core = ["callable", [td], ["typed", "NoneType"], []]
+    else:
+        core = ["callable", [["typed", "int"]], td, []]
+    return core if rng.random() < 0.7 else ["unite", [core, ["typed", "int"]]]
+
+
 def gen_case(rng, fresh):
+    if rng.random() < 0.05:
+        a = gen_hidden_tv(rng)
+        b = variant(a, rng, fresh) if rng.random() < 0.5 else gen_val(rng, 2)
+        c = gen_val(rng, 1)
+        m = [[i, ["typed", rng.choice(["int", "str"])]] for i in range(3)]
+        a, b, c, m = fix_labels([a, b, c, m])
+        return {"a": a, "b": b, "c": c, "m": m}
     a = gen_permutable(rng) if rng.random() < 0.15 else gen_val(rng, 3)
     r = rng.random()
     if r < 0.15 and has_permutable(a):
